@@ -41,7 +41,7 @@ func VerifRun_C17g() {
 	}
 	pi := verifConcretize(verifRange("pattern", 0, len(c17gPatterns)-1))
 	pat := c17gPatterns[pi]
-	via := verifConcretize(verifRange("via", 0, 3))
+	via := verifConcretize(verifRange("via", 0, verifParamOr("VIAS", 5)-1))
 	c08view = map[string]string{}
 	ctx := context.Background()
 	l := CreateLspServer()
@@ -62,6 +62,9 @@ func VerifRun_C17g() {
 		verifVFSPut(root+"/luahelper.json", []byte("{\n \"BaseDir\": \"./\",\n \"ShowWarnFlag\": 1,\n \"IgnoreFileErr\": [\""+quoted+"\"]\n}\n"))
 	case 3:
 		verifVFSPut(root+"/luahelper.json", []byte("{\n \"BaseDir\": \"./\",\n \"ShowWarnFlag\": 1,\n \"IgnoreFileErrTypes\": [{\"File\": \""+quoted+"\", \"Types\": [4]}]\n}\n"))
+	case 4:
+		// the name of a project-specific import function (ReferFrameFiles), written carelessly
+		verifVFSPut(root+"/luahelper.json", []byte("{\n \"BaseDir\": \"./\",\n \"ShowWarnFlag\": 1,\n \"ReferFrameFiles\": [{\"Name\": \""+quoted+"\", \"type\": 0, \"SuffixFlag\": 1}]\n}\n"))
 	}
 	var ip InitializeParams
 	ip.RootURI = lsp.DocumentURI("file://" + root)
@@ -78,6 +81,15 @@ func VerifRun_C17g() {
 		_ = l.ChangeConfiguration(ctx, c17fParams(nil, []string{pat}))
 	}
 	verifReach("running")
+	if via == 4 {
+		// the import-function names are used when a request looks at the line under the cursor
+		ua := lsp.DocumentURI("file://" + root + "/a.lua")
+		_ = l.TextDocumentDidOpen(ctx, lsp.DidOpenTextDocumentParams{TextDocument: lsp.TextDocumentItem{URI: ua, Text: "local u = 1\n"}})
+		_, _ = l.TextDocumentHover(ctx, lsp.TextDocumentPositionParams{TextDocument: lsp.TextDocumentIdentifier{URI: ua}, Position: lsp.Position{Line: 0, Character: 7}})
+		_, _ = l.TextDocumentDefine(ctx, lsp.TextDocumentPositionParams{TextDocument: lsp.TextDocumentIdentifier{URI: ua}, Position: lsp.Position{Line: 0, Character: 7}})
+		verifReach("asked")
+		return
+	}
 	view := ""
 	for i, f := range c17gFiles {
 		v := c08view["file://"+root+"/"+f]
